@@ -709,10 +709,21 @@ def _orphan_relocation_scenario(rng):
 def _gc_model_case(txt, r):
     """Translate a finished run of a gcmodel=<nsup> scenario (a caller or two on K next to one primary GC cycle that relocates K's first record)
     into a case of ConcGC.gc_case: abstract keys, values and locations; the observed events become 'run thread t until it has done X'."""
-    m = re.search(r"gcmodel=(\d+)", txt.split("\n")[0])
+    m = re.search(r"gcmodel=(\d+|dyn)", txt.split("\n")[0])
     if not m:
         return None
-    nsup = int(m.group(1))
+    dyn = m.group(1) == "dyn"
+    nsup = 0 if dyn else int(m.group(1))
+    if dyn:
+        # the phases must have run one after the other: T1 (the writer) returned before the Flush began, the Flush before the cycle
+        pos = {}
+        for i, e in enumerate(r["events"] or []):
+            pos.setdefault((e["t"], e["point"]), i)
+        try:
+            if not (pos[("T1", "done")] < pos[("F1", "begin")] and pos[("F1", "done")] < pos[("G1", "begin")]):
+                return None
+        except KeyError:
+            return None
     keys, vals = {}, {}
     def kid(h):
         return keys.setdefault(h, len(keys) + 1)
@@ -734,7 +745,11 @@ def _gc_model_case(txt, r):
             elif f[2] == "remove":
                 calls.append("ARemove %d" % kid(f[3]))
             elif f[2] == "pgc":
-                calls.append("APgc %d [%d]" % (nsup, nsup))      # the hand-over: the setup's nsup entries; the candidate: location nsup = K's first record
+                # static family: the hand-over is the setup's nsup entries and the candidate is location nsup = K's first record;
+                # dynamic family: the hand-over is the one entry of T1's write (flushed by F1), nothing is relocated (one primary file)
+                calls.append("APgc 1 []" if dyn else "APgc %d [%d]" % (nsup, nsup))
+            elif f[2] == "flush" and dyn:
+                calls.append("AGet 0")                           # (the model has no Flush: a lookup of a key nobody uses keeps the thread numbers aligned)
             else:
                 return None
     wkeys = collections.Counter(l.split()[3] for l in txt.split("\n") if l.startswith("thread ") and l.split()[2] in ("put", "remove"))
@@ -766,6 +781,8 @@ def _gc_model_case(txt, r):
     for t in r["threads"]:
         if t["res"] != "ROk":
             exp.append("AErr")
+        elif t["op"] == "flush":
+            exp.append("AVal None")
         elif t["op"] in ("put", "pgc"):
             exp.append("AOk")
         elif t["op"] == "get":
@@ -835,14 +852,14 @@ def _conc_scenarios(rng, n, gc):
         if gc and fam < 0.64:
             scen.append(_orphan_relocation_scenario(rng))
             continue
-        if gc and fam < 0.7:
+        if gc and fam < 0.73:
             # reader across overwrite + flush + primary GC: a call looks K up in the index and parks before it reads the primary; K is
             # overwritten (or removed), the change is flushed, a primary cycle reclaims the old record (marks it; truncates its file when the
             # limit is small); K was bound throughout an overwrite, so the parked call must still answer one of its values
             K = rng.choice(MKEYS)
             others = [k for k in MKEYS if k != K]
             vals = ["61", "6262", "636363", "6464646464646464"]
-            pmax = rng.choice((30, 44, 60, 1048576))
+            pmax = rng.choice((30, 44, 60, 1048576, 1048576))
             pre = ["setup put %s %s" % (k, rng.choice(vals)) for k in rng.sample(others, rng.randint(0, 2))]
             post = ["setup put %s %s" % (k, rng.choice(vals)) for k in rng.sample(others, rng.randint(0, 3))]
             setup = pre + ["setup put %s %s" % (K, rng.choice(vals))] + (["setup flush"] if rng.random() < 0.5 else []) + post + ["setup flush"]
@@ -855,8 +872,14 @@ def _conc_scenarios(rng, n, gc):
             if rng.random() < 0.3:
                 names = [t[0] for t in th]
                 sched = ["T0"] * 2 + [rng.choice(names[1:]) for _ in range(rng.randint(10, 40))] + ["T1"] * 8 + ["F1"] * 12 + ["G1"] * 12
-            scen.append("cfg bits=8 imax=1048576 pmax=%d timeout_ms=3000\n" % pmax + "\n".join(setup) + "\n" +
-                        "".join("thread %s %s\n" % t for t in th) + "schedule " + " ".join(sched + ["T0"] * 4) + "\n")
+            # with ONE primary file (nothing is relocated) and the phases in sequence the run is replayed on the location-protocol model: the
+            # hand-over is then exactly the one entry T1's write produced and the flush wrote
+            # NOT replayed on the location-protocol model: the primary serves a record from its write pool (the last flushed batch stays readable)
+            # even after the collector marked it dead in the file, so the parked reader may answer the OLDER value where the model - which has no
+            # read cache - looks the key up again; both answers are linearizable, the results differ (a false alarm of a first version of this replay)
+            gcm = False
+            scen.append("cfg bits=8 imax=1048576 pmax=%d timeout_ms=3000%s\n" % (pmax, " quiet_ms=3000 gcmodel=dyn" if gcm else "") + "\n".join(setup) + "\n" +
+                        "".join("thread %s %s\n" % t for t in th) + "schedule " + " ".join(sched + ["T0"] * 4 + ([t[0] for t in th] * 6 if gcm else [])) + "\n")
             continue
         if gc and fam < 0.8:
             # index reader across flush + index GC: a call reads its bucket's position under the read lock and parks before it reads the
